@@ -142,4 +142,136 @@ theorem mat4_session_accepted (c : Mat4.Cfg) (hwf : c.wf) (ty : Ty) (stale stale
   have : (Small.sampleList p).length ≤ (Small.sampleList ops).length := by rw [e, Small.sampleList_append]; simp
   exact Nat.lt_of_le_of_lt (Nat.div_le_div_right (Nat.mul_le_mul_right _ this)) hguard
 
+/-! ## MPC2K (PCM_16 little endian, one or two channels, 16-bit rate field) -/
+
+def mpc2kGeom (c : Mpc2k.Cfg) : AbsWrite.Geom := { word := 0x210002, ch := c.ch, sr := c.sr }
+
+theorem mpc2k_facts (c : Mpc2k.Cfg) (hwf : c.wf) :
+    Small.Small2Facts (Mpc2k.fmt c) Mpc2k.parse (mpc2kGeom c) (.pcm ⟨16, false, false⟩)
+      (guardOf (2 * c.ch) (fun _ => True)) := by
+  obtain ⟨m1, m2, m3⟩ := small2_machine_facts (Mpc2k.fmt c) (Mpc2k.lawful c hwf.2.2.2) rfl
+  have hch : 0 < c.ch := by rcases hwf.1 with h | h <;> omega
+  refine { chpos := hch, nb := by decide, wf := by decide,
+           block := C04.frames_bound_granular _ _ _ _ (by simp [mpc2kGeom, Geom.codec, Geometry.sampleGranular])
+             (by simp [mpc2kGeom, Geom.codec]),
+           notRaw := by simp [mpc2kGeom, Geom.major], codec := ⟨false, by simp [mpc2kGeom, Geom.codec, encOf]⟩,
+           snapForm := m1, closedIsSnap := m2, snapFn := m3, snapParse := ?_, Gdata := fun a b e h => by unfold guardOf at *; rw [← e]; exact h }
+  intro st ops _
+  obtain ⟨h1, _⟩ := C04Mpc2k.mpc2k_snapshot_valid c hwf st ops
+  refine ⟨_, h1, rfl, rfl, rfl, ?_⟩
+  show rateOk (mpc2kGeom c).major c.sr ((Mpc2k.quant c.sr : Nat) : Int) = true
+  have hm : (mpc2kGeom c).major = 0x21 := by simp [mpc2kGeom, Geom.major]
+  rw [hm]
+  simp only [rateOk, rateClass]
+  simp only [show ((0x21 : Nat) == 0x04) = false from rfl, show ((0x21 : Nat) == 0x06) = false from rfl,
+    show ((0x21 : Nat) == 0x21) = true from rfl, Bool.or_true, Bool.false_eq_true, if_false, if_true, Bool.or_eq_true,
+    decide_eq_true_eq, beq_iff_eq]
+  by_cases h : 65536 ≤ c.sr
+  · exact Or.inl h
+  · right; unfold Mpc2k.quant; rw [Nat.min_eq_left (by omega)]
+
+/-- MPC2K: every job of whole frames is accepted -/
+theorem mpc2k_session_accepted (c : Mpc2k.Cfg) (hwf : c.wf) (ty : Ty) (stale stale' : Nat) (ops : List Small.Op)
+    (hv : Valid c.ch ty ops) :
+    accepted (Small.recordOf (small2Cont (Mpc2k.fmt c) Mpc2k.parse (mpc2kGeom c) (.pcm ⟨16, false, false⟩)) ty stale stale' ops) = true :=
+  small2_session_accepted _ _ _ _ _ (mpc2k_facts c hwf) ty stale stale' ops hv (fun _ _ _ => trivial)
+
+/-! ## HTK (PCM_16 big endian, one channel, sample period in 100 ns units) -/
+
+def htkGeom (sr : Nat) : AbsWrite.Geom := { word := 0x100002, ch := 1, sr := sr }
+
+/-- the guards of `htk_reopen_info`: the 32-bit `2 * sample_count` arithmetic and the class KF-HTK-MAGIC-CLASH -/
+def htkGuard (sr D : Nat) : Prop := 12 + D < 2 ^ 31 ∧ ¬ C04Htk.KF.magicClash sr (D / 2)
+
+theorem htk_facts (sr : Nat) (hwf : Htk.wf sr) (hrate : rateOk 0x10 sr ((Htk.quant sr : Nat) : Int) = true) :
+    Small.Small2Facts (Htk.fmt sr) Htk.parse (htkGeom sr) (.pcm ⟨16, false, true⟩) (guardOf (2 * 1) (htkGuard sr)) := by
+  obtain ⟨m1, m2, m3⟩ := small2_machine_facts (Htk.fmt sr) (Htk.lawful sr) rfl
+  refine { chpos := Nat.one_pos, nb := by decide, wf := by decide,
+           block := C04.frames_bound_granular _ _ _ _ (by simp [htkGeom, Geom.codec, Geometry.sampleGranular])
+             (by simp [htkGeom, Geom.codec]),
+           notRaw := by simp [htkGeom, Geom.major], codec := ⟨true, by simp [htkGeom, Geom.codec, encOf]⟩,
+           snapForm := m1, closedIsSnap := m2, snapFn := m3, snapParse := ?_, Gdata := fun a b e h => by unfold guardOf at *; rw [← e]; exact h }
+  intro st ops hg
+  obtain ⟨hmod, hlen, hk⟩ := hg
+  have e := m3 st st ops [.write (Small2.opsData ops) false] (by simp [Small2.opsData])
+  obtain ⟨hdr, hl, hf⟩ := m1 st [.write (Small2.opsData ops) false]
+  obtain ⟨h1, _⟩ := C04Htk.htk_snapshot_valid sr hwf st [.write (Small2.opsData ops) false] (whole_single _ _ (by simpa using hmod))
+    (by rw [hf]; simp only [List.length_append, hl]; simpa [Small2.opsData, Htk.fmt] using hlen) (by simpa [Small2.opsData] using hk)
+  rw [← e] at h1
+  refine ⟨_, h1, by simp [Small2.opsData, Enc.nbytes, PcmFmt.nbytes, htkGeom], rfl, rfl, ?_⟩
+  have hm : (htkGeom sr).major = 0x10 := by simp [htkGeom, Geom.major]
+  rw [hm]; exact hrate
+
+/-- HTK: every job is accepted under the guards of `htk_reopen_info` (asked of the finished file and of every crash image)
+    and for every rate the first-order tolerance of the rate clause covers (`htk_rate_tolerance`) -/
+theorem htk_session_accepted (sr : Nat) (hwf : Htk.wf sr) (hrate : rateOk 0x10 sr ((Htk.quant sr : Nat) : Int) = true)
+    (ty : Ty) (stale stale' : Nat) (ops : List Small.Op) (hv : Valid 1 ty ops)
+    (hguard : ∀ p post, ops = p ++ post → htkGuard sr ((Small.sampleList p).length * 2)) :
+    accepted (Small.recordOf (small2Cont (Htk.fmt sr) Htk.parse (htkGeom sr) (.pcm ⟨16, false, true⟩)) ty stale stale' ops) = true :=
+  small2_session_accepted _ _ _ _ _ (htk_facts sr hwf hrate) ty stale stale' ops hv hguard
+
+/-- the rate clause of the predicate accepts what HTK's period field makes of every rate the campaign asks for … -/
+theorem htk_rate_tolerance : ∀ sr ∈ [1, 8000, 11025, 16000, 22050, 44100, 48000, 65535, 65536, 96000, 2 ^ 30 - 1, 2 ^ 30, 2 ^ 30 + 1, 2 ^ 31 - 1],
+    rateOk 0x10 sr ((Htk.quant sr : Nat) : Int) = true := by decide
+
+/-- … but its tolerance `sr²/10⁷ + 1` is first order in the period: between about 3.2 MHz and 10 MHz the field's quantum is
+    coarser than that (6 MHz is stored as period 1 = 10 MHz), so the clause would flag a correct library there — outside every
+    rate the campaign generates, and the reason `htk_session_accepted` carries `hrate` -/
+theorem htk_rate_tolerance_gap : rateOk 0x10 6000000 ((Htk.quant 6000000 : Nat) : Int) = false := by decide
+
+/-! ## PVF (PCM_S8 / PCM_16 / PCM_32 big endian, text header, no close function) -/
+
+def pvfGeom (c : Pvf.Cfg) : AbsWrite.Geom := { word := 0x0E0000 + c.codec, ch := c.ch, sr := c.sr }
+
+theorem pvf_facts (c : Pvf.Cfg) (hwf : c.wf) :
+    Small.Small2Facts (Pvf.fmt c) Pvf.parse (pvfGeom c) (encFor c.codec true)
+      (guardOf ((encFor c.codec true).nbytes * (pvfGeom c).ch) (fun D => ¬ (Pvf.hdr c).length + D < 12)) := by
+  obtain ⟨hcd, hch1, hch2, hsr1, hsr2⟩ := hwf
+  have hcodec : (pvfGeom c).codec = c.codec := by
+    show (0x0E0000 + c.codec) % 0x10000 = c.codec
+    rcases hcd with h | h | h <;> omega
+  have hmajor : (pvfGeom c).major = 0x0E := by
+    show (0x0E0000 + c.codec) / 0x10000 % 0x1000 = 0x0E
+    rcases hcd with h | h | h <;> omega
+  have henc : encOf .raw c.codec true = some (encFor c.codec true) := by
+    unfold encFor; rcases hcd with h | h | h <;> rw [h] <;> simp [encOf]
+  have hnbw : (encFor c.codec true).nbytes = Pvf.bytewidth c.codec := by
+    unfold encFor; rcases hcd with h | h | h <;> rw [h] <;> simp [encOf, Enc.nbytes, PcmFmt.nbytes, Pvf.bytewidth]
+  obtain ⟨hnb, hewf⟩ := encOf_props _ _ _ _ henc
+  have hconst := fun st ops => Small2.closedBytes_const (Pvf.fmt c) (Pvf.lawfulConst c) st ops
+  refine { chpos := hch1, nb := hnb, wf := hewf,
+           block := C04.frames_bound_granular _ _ _ _
+             (by rw [hcodec]; rcases hcd with h | h | h <;> rw [h] <;> simp [Geometry.sampleGranular])
+             (by rw [hmajor]; simp),
+           notRaw := by rw [hmajor]; simp, codec := ⟨_, by rw [hcodec]; exact henc⟩,
+           snapForm := fun st ops => ⟨_, rfl, (hconst st ops).2⟩,
+           closedIsSnap := fun st ops => by rw [(hconst st ops).1, (hconst st ops).2],
+           snapFn := fun a b ops ops' e => by rw [(hconst a ops).2, (hconst b ops').2, e],
+           snapParse := ?_, Gdata := fun a b e h => by unfold guardOf at *; rw [← e]; exact h }
+  intro st ops hg
+  obtain ⟨h1, _⟩ := C04Pvf.pvf_snapshot_valid c ⟨hcd, hch1, hch2, hsr1, hsr2⟩ st ops hg.2
+  refine ⟨_, h1, by rw [hnbw]; rfl, rfl, ?_, ?_⟩
+  · show (0x0E0000 + c.codec) % 0x10000000 = (0x0E0000 + c.codec) % 0x10000000
+    rfl
+  · show rateOk (pvfGeom c).major c.sr ((Pvf.quant c.sr : Nat) : Int) = true
+    rw [hmajor]; simp [rateOk, rateClass, Pvf.quant]
+
+/-- PVF: every job is accepted outside the class KF-PVF-TINY (a file shorter than the 12 bytes the type detection needs),
+    asked of the finished file and of every crash image -/
+theorem pvf_session_accepted (c : Pvf.Cfg) (hwf : c.wf) (ty : Ty) (stale stale' : Nat) (ops : List Small.Op)
+    (hv : Valid c.ch ty ops)
+    (hk : ∀ p post, ops = p ++ post → ¬ (Pvf.hdr c).length + (Small.sampleList p).length * (encFor c.codec true).nbytes < 12) :
+    accepted (Small.recordOf (small2Cont (Pvf.fmt c) Pvf.parse (pvfGeom c) (encFor c.codec true)) ty stale stale' ops) = true :=
+  small2_session_accepted _ _ _ _ _ (pvf_facts c hwf) ty stale stale' ops hv hk
+
+/-! ## non-vacuity: a stereo MAT4 16-bit job (frames call, update, auto mode, items call), evaluated -/
+
+def exOps : List Small.Op := [.write true [1, -2], .update, .auto true, .write false [3, -4, 5, 6]]
+def exC : Mat4.Cfg := ⟨2, 2, 2, 44100⟩
+
+example : exC.wf ∧ (Small.recordOf (small2Cont (Mat4.fmt exC) Mat4.parse (mat4Geom exC) (encFor 2 true)) .s16 0 99999 exOps).snaps.map (·.info.frames) = [1, 3] ∧
+    (Small.recordOf (small2Cont (Mat4.fmt exC) Mat4.parse (mat4Geom exC) (encFor 2 true)) .s16 0 99999 exOps).info.frames = 3 ∧
+    accepted (Small.recordOf (small2Cont (Mat4.fmt exC) Mat4.parse (mat4Geom exC) (encFor 2 true)) .s16 0 99999 exOps) = true := by
+  decide +kernel
+
 end Sf.C04Bridge
